@@ -18,6 +18,69 @@ Bool = z3.BoolSort()
 Ref = z3.DeclareSort("Ref")          # opaque objects: Paths, PathSpecs, match objects, ...
 
 
+_nodes: dict = {}
+
+
+def _node(t, Str):
+    """Per-DAG-node facts, computed once through the z3 API: (term, child ids, is Str-sorted,
+    index-candidate terms, is application of a defined spec function, children terms)."""
+    key = t.get_id()
+    n = _nodes.get(key)
+    if n is not None:
+        return n
+    if not z3.is_app(t):
+        n = (t, (), False, (), False, ())         # quantifier / lambda bodies are not entered
+        _nodes[key] = n
+        return n
+    ch = t.children()
+    d = t.decl()
+    k = d.kind()
+    cands = ()
+    special = False
+    if k == z3.Z3_OP_SELECT or k == z3.Z3_OP_STORE:
+        cands = (ch[1],)
+    elif k == z3.Z3_OP_UNINTERPRETED and ch:
+        cands = tuple(c for c in ch if c.sort().eq(Int))
+        special = d.name() in ("joinr", "strip", "lstrip", "rstrip")
+    n = (t, tuple(c.get_id() for c in ch), t.sort().eq(Str), cands, special, tuple(ch))
+    _nodes[key] = n
+    return n
+
+
+class Info:
+    __slots__ = ("strs", "cands", "special")
+
+
+def analyze_all(tops, th):
+    """Str-sorted subterms, Int index candidates (in order of first occurrence, `tops` order) and
+    applications of defined spec functions in a set of facts; each DAG node is visited once."""
+    info = Info()
+    info.strs, info.cands, info.special = [], [], []
+    seen, cset = set(), set()
+    Str = th.Str
+    nodes = _nodes
+    for top in tops:
+        stack = [top]
+        while stack:
+            x = stack.pop()
+            i = x.get_id()
+            if i in seen:
+                continue
+            seen.add(i)
+            n = nodes.get(i) or _node(x, Str)
+            if n[2]:
+                info.strs.append(n[0])
+            if n[4]:
+                info.special.append(n[0])
+            for c in n[3]:
+                ci = c.get_id()
+                if ci not in cset:
+                    cset.add(ci)
+                    info.cands.append(c)
+            stack.extend(n[5])
+    return info
+
+
 class L0:
     """Uninterpreted free-monoid strings."""
 
@@ -31,6 +94,8 @@ class L0:
         self._litval: dict[int, str] = {}      # term id -> python literal
         self.additive: list[z3.FuncDeclRef] = []   # Str->Int functions assumed additive over cat
         self.ufs: dict[str, z3.FuncDeclRef] = {}
+        self._sub_cache = {}
+        self._fact_cache = {}
         self.empty = self.lit("")
 
     # ---- construction
@@ -102,33 +167,16 @@ class L0:
         return z3.FreshConst(self.Str, hint)
 
     # ---- axiom instantiation for the terms of one VC
-    def saturate(self, terms):
-        """Return ground facts about every Str-sorted subterm occurring in `terms`."""
-        seen = set()
-        strs = []
-        stack = list(terms)
-        while stack:
-            t = stack.pop()
-            i = t.get_id()
-            if i in seen:
-                continue
-            seen.add(i)
-            if z3.is_app(t):
-                stack.extend(t.children())
-                if t.sort().eq(self.Str):
-                    strs.append(t)
-            elif z3.is_quantifier(t):
-                stack.append(t.body())
+    def _facts_of(self, t):
+        key = t.get_id()
+        hit = self._fact_cache.get(key)
+        if hit is not None and len(hit[2]) == len(self.additive):
+            return hit[1]
         facts = []
-        lits = []
-        for t in strs:
-            v = self.litval(t)
-            if v is not None:
-                lits.append(t)
-                facts.append(self.slenf(t) == len(v))
-                for f in self.additive:
-                    pass
-                continue
+        v = self.litval(t)
+        if v is not None:
+            facts.append(self.slenf(t) == len(v))
+        else:
             facts.append(self.slenf(t) >= 0)
             facts.append((self.slenf(t) == 0) == (t == self.empty))
             if self.is_cat(t):
@@ -138,6 +186,18 @@ class L0:
                     facts.append(f(t) == f(a) + f(b))
             for f in self.additive:
                 facts.append(f(t) >= 0)
+        self._fact_cache[key] = (t, facts, list(self.additive))
+        return facts
+
+    def saturate(self, terms):
+        """Return ground facts about every Str-sorted subterm occurring in `terms`."""
+        seen = set()
+        facts = []
+        lits = []
+        for t in analyze_all(terms, self).strs:
+            if self.litval(t) is not None:
+                lits.append(t)
+            facts.extend(self._facts_of(t))
         if self.empty.get_id() not in {t.get_id() for t in lits}:
             lits.append(self.empty)
         facts.append(self.slenf(self.empty) == 0)
